@@ -86,3 +86,11 @@ package api
 //@   opts trusted
 //@   ensures forall o *Pin :: o != pin ==> *o == old(*o)
 //@   modifies heap(Pin)
+
+// time left before the metric expires (time.Until): a library clock read, not verified; the value
+// returned last is recorded by the caller
+//@ ghost var lastTTL time.Duration
+//@ func (m *Metric) GetTTL
+//@   opts trusted
+//@   records lastTTL = res
+//@   modifies nothing
